@@ -111,7 +111,7 @@ def gen_platform(rng, feat, profiles=True, want_fail=True, avoid=()):
             pts = sorted(rng.sample([0.5, 1.0, 2.0, 3.0], 2))
             L.append("P A %s -1 2 %s" % (l, " ".join("%s %s" % (_fmt(d), _fmt(rng.choice([1e-3, 2e-3, 0.0]))) for d in pts)))
             feat.add("profile:latency")
-        if want_fail and rng.random() < 0.3:
+        if want_fail and rng.random() < 0.3 and "kill-in-comm" not in avoid:
             h = rng.choice(hosts)
             a = rng.choice([0.5, 1.0, 1.5, 2.0])
             L.append("P H %s -1 2 %s 0 %s 1" % (h, _fmt(a), _fmt(a + rng.choice([0.5, 1.0, 2.0]))))
@@ -155,6 +155,7 @@ def known_triggers(opts):
             av.add("maestro-comm")           # HOST_STATE value "start" never declared: TracingError
             av.add("migrate-across-levels")  # ACTOR_STATE / ACTOR_LINK are only set up for the zone level of the first actors
             av.add("autorestart")            # the on_exit callback of the first incarnation is replayed by the restarted one
+            av.add("kill-in-comm")           # an actor killed while its send is unmatched: null receiver dereferenced
     return av
 
 
@@ -178,6 +179,10 @@ def triggers_in(text, opts):
         present.add("maestro-comm")
     if any(l.startswith("script ") and l.split()[-1] == "1" for l in lines):
         present.add("autorestart")
+    scripts = [l.split() for l in lines if l.startswith("script ")]
+    if any(l.startswith("put ") for l in lines) and (any(l.startswith(("kill ", "hostoff ", "P H ")) for l in lines) or
+                                                     any(t[4] == "1" or t[5] != "-1" for t in scripts)):
+        present.add("kill-in-comm")
     if has(opts, "tracing/vm"):
         present.add("vm-tracing")
     return sorted(present & (av | {"vm-tracing"}))
@@ -191,6 +196,7 @@ def gen_s4u(rng, opts=(), tame=False, force=None):
     feat = set()
     avoid = known_triggers(opts) if tame else set()
     want_fail = "nofail" not in force and (("fail" in force) or rng.random() < 0.5)
+    nokill = "kill-in-comm" in avoid
     plat, hosts, links, disks, speeds, layout = gen_platform(rng, feat, want_fail=want_fail, avoid=avoid)
     if "siblings" in avoid and layout != "flat":
         opts.append("tracing/platform/topology:no")
@@ -240,8 +246,8 @@ def gen_s4u(rng, opts=(), tame=False, force=None):
     script_hosts = [rng.choice(hosts) for _ in range(nscripts)]
     for k in range(nscripts):
         initial = 1 if k < ninit else 0
-        daemon = 1 if initial and k > 0 and rng.random() < 0.15 else 0
-        killtime = rng.choice([0.5, 1.0, 2.0, 3.5]) if rng.random() < 0.15 else -1
+        daemon = 1 if initial and k > 0 and rng.random() < 0.15 and not nokill else 0
+        killtime = rng.choice([0.5, 1.0, 2.0, 3.5]) if rng.random() < 0.15 and not nokill else -1
         autorestart = 1 if want_fail and rng.random() < 0.3 and "autorestart" not in avoid else 0
         L.append("script %d %s %d %d %s %d" % (k, script_hosts[k], initial, daemon, _fmt(float(killtime)) if killtime >= 0 else "-1", autorestart))
         nops = rng.randint(3, 12)
@@ -279,7 +285,7 @@ def gen_s4u(rng, opts=(), tame=False, force=None):
             elif r < 0.70 and nscripts > ninit:
                 ops.append("create %d" % rng.randint(ninit, nscripts - 1))
                 feat.add("create")
-            elif r < 0.73:
+            elif r < 0.73 and not nokill:
                 ops.append("kill %d" % rng.randrange(nscripts))
                 feat.add("kill")
             elif r < 0.76:
@@ -298,7 +304,7 @@ def gen_s4u(rng, opts=(), tame=False, force=None):
                 feat.add("migrate")
             elif r < 0.84:
                 ops.append("join %d %s" % (rng.randrange(nscripts), _fmt(rng.choice([0.5, 2.0]))))
-            elif r < 0.86 and want_fail:
+            elif r < 0.86 and want_fail and not nokill:
                 h = rng.choice(hosts)
                 ops.append("hostoff %s" % h)
                 ops.append("sleep %s" % _fmt(rng.choice([0.0, 0.5, 1.0])))
